@@ -81,23 +81,23 @@ func newPBN(spe uint64, idx ...int) pbn {
 // F1: a synthetic duty lands on the slot of another validator's real duty; Proposal for that slot is answered synthetically.
 func TestProbeSynthOnRealSlot(t *testing.T) {
 	b := newPBN(4, 1, 5)
-	// validator 1 really proposes slot 1 of epoch 0 (slot 1); validator 5 has no real duty: 5 % 4 = 1 -> synthetic duty in slot 1
-	b.real[0] = []*eth2v1.ProposerDuty{{PubKey: pk(1), Slot: 1, ValidatorIndex: 1}}
+	// validator 1 really proposes slot 5 of epoch 1; validator 5 has no real duty: 5 % 4 = 1 -> synthetic duty in slot 5
+	b.real[1] = []*eth2v1.ProposerDuty{{PubKey: pk(1), Slot: 5, ValidatorIndex: 1}}
 	w := eth2wrap.WithSyntheticDuties(b)
-	resp, err := w.ProposerDuties(context.Background(), &eth2api.ProposerDutiesOpts{Epoch: 0})
+	resp, err := w.ProposerDuties(context.Background(), &eth2api.ProposerDutiesOpts{Epoch: 1})
 	if err != nil {
 		t.Fatal(err)
 	}
 	for _, d := range resp.Data {
 		t.Logf("duty slot=%d vidx=%d", d.Slot, d.ValidatorIndex)
 	}
-	p, err := w.Proposal(context.Background(), &eth2api.ProposalOpts{Slot: 1})
+	p, err := w.Proposal(context.Background(), &eth2api.ProposalOpts{Slot: 5})
 	if err != nil {
 		t.Fatal(err)
 	}
 	g, _ := p.Data.Graffiti()
 	pi, _ := p.Data.ProposerIndex()
-	t.Logf("proposal for slot 1: graffiti=%q proposer=%d forwarded=%v", string(g[:]), pi, *b.props)
+	t.Logf("proposal for slot 5: graffiti=%q proposer=%d forwarded=%v", string(g[:]), pi, *b.props)
 }
 
 // F2: the winner among colliding validators depends on map iteration order.
@@ -171,11 +171,6 @@ func TestProbeSynthFifoDup(t *testing.T) {
 		_, _ = w.ProposerDuties(context.Background(), &eth2api.ProposerDutiesOpts{Epoch: eth2p0.Epoch(e)})
 	}
 	// epoch 0 evicted (fifo had it twice: 11 entries)
-	_, _ = w.ProposerDuties(context.Background(), &eth2api.ProposerDutiesOpts{Epoch: 0})
-	r, _ := w.ProposerDuties(context.Background(), &eth2api.ProposerDutiesOpts{Epoch: 0})
-	for _, d := range r.Data {
-		t.Logf("epoch 0 duty: slot=%d vidx=%d", d.Slot, d.ValidatorIndex)
-	}
 	p, err := w.Proposal(context.Background(), &eth2api.ProposalOpts{Slot: 2})
 	if err != nil {
 		t.Fatal(err)
